@@ -751,11 +751,32 @@ def snapshot_mutable_defaults(prefix=IXAI_PREFIX):
                 if (d and not all(_is_immutable(v) for v in d)) or (kd and not all(_is_immutable(v) for v in kd.values())):
                     found.append((f, copy.deepcopy(d), copy.deepcopy(kd)))
 
+    # mutable containers stored on classes or as module globals are process-wide state as well
+    import collections
+    shared = []
+    containers = (list, dict, set, collections.deque, collections.OrderedDict, collections.defaultdict)
+    for name, m in list(sys.modules.items()):
+        if m is None or not (name == prefix or name.startswith(prefix + '.')) or name.startswith(prefix + '.visualization'):
+            continue        # plotting constants (colour lists) take no part in computing results
+        for attr, val in list(vars(m).items()):
+            if attr.startswith('__') or not isinstance(val, containers) or isinstance(val, type):
+                continue
+            shared.append((m, attr, copy.deepcopy(val), f"{name}.{attr}"))
+        for obj in list(vars(m).values()):
+            if inspect.isclass(obj) and obj.__module__ == name:
+                for attr, val in list(vars(obj).items()):
+                    if attr.startswith('__') or not isinstance(val, containers):
+                        continue
+                    shared.append((obj, attr, copy.deepcopy(val), f"{name}.{obj.__qualname__}.{attr}"))
+
     def reset():
         for f, d, kd in found:
             if d is not None:
                 f.__defaults__ = copy.deepcopy(d)
             if kd is not None:
                 f.__kwdefaults__ = copy.deepcopy(kd)
+        for owner, attr, val, _n in shared:
+            setattr(owner, attr, copy.deepcopy(val))
     reset.functions = [f"{f.__module__}.{f.__qualname__}" for f, _d, _k in found]
+    reset.shared_containers = [n for _o, _a, _v, n in shared]
     return reset
